@@ -49,6 +49,8 @@ type nodeSpec struct {
 	Seed  int64  `json:"gseed,omitempty"` //
 	Comp  bool   `json:"comp,omitempty"`  // generated content is compressible
 	MTime int64  `json:"mtime"`           // nanoseconds since the epoch
+	// Nested: the file's content is a real zip archive of this (flat, parents first) tree
+	Nested []nodeSpec `json:"nested,omitempty"`
 }
 
 type limSpec struct {
@@ -75,11 +77,28 @@ type scenario struct {
 	Prepopulate bool       `json:"prepopulate,omitempty"` // destination already holds longer files of the same names
 	Raw         []rawEntry `json:"raw,omitempty"`
 	Archive     string     `json:"archive,omitempty"` // zip | tar (view / readonly / closed)
+	CloseOrder  string     `json:"close_order,omitempty"` // closed: "" = fs.Close() | file-fs | fs-file | fs-fs
 }
 
 func (n nodeSpec) content() []byte {
 	if n.Dir {
 		return nil
+	}
+	if n.Nested != nil {
+		var buf bytes.Buffer
+		zw := zip.NewWriter(&buf)
+		for _, m := range n.Nested {
+			name := m.Rel
+			if m.Dir {
+				name += "/"
+			}
+			fw, err := zw.CreateHeader(&zip.FileHeader{Name: name, Method: zip.Deflate, Modified: time.Unix(0, m.MTime)})
+			if err == nil && !m.Dir {
+				_, _ = fw.Write(m.content())
+			}
+		}
+		_ = zw.Close()
+		return buf.Bytes()
 	}
 	if n.Size == 0 {
 		return n.Data
@@ -222,6 +241,38 @@ func short(b []byte) string {
 	return fmt.Sprintf("%d bytes sha256=%s", len(b), hex.EncodeToString(s[:6]))
 }
 
+func hasArchiveExt(rel string) bool {
+	e := strings.ToLower(filepath.Ext(rel))
+	for _, x := range filesystem.ZipFileExtensions {
+		if e == x {
+			return true
+		}
+	}
+	return false
+}
+
+// expectedAfter: what must be on disk (and, except for `unlisted`, in the returned list) after unzipping an archive of
+// the tree.  With limits that apply recursively a FILE that is a real archive and carries an archive extension is replaced
+// by a directory <dir>/<stem> holding the nested tree (that directory itself is no entry of any archive: unlisted).
+func expectedAfter(tree []nodeSpec, recursive bool) (want map[string]nodeSpec, unlisted map[string]bool) {
+	want, unlisted = map[string]nodeSpec{}, map[string]bool{}
+	for _, n := range tree {
+		if recursive && !n.Dir && n.Nested != nil && hasArchiveExt(n.Rel) {
+			base := n.Rel[strings.LastIndex(n.Rel, "/")+1:]
+			stem := n.Rel[:len(n.Rel)-len(base)] + strings.TrimSuffix(base, filepath.Ext(base))
+			want[stem] = nodeSpec{Rel: stem, Dir: true}
+			unlisted[stem] = true
+			for _, m := range n.Nested {
+				m.Rel = stem + "/" + m.Rel
+				want[m.Rel] = m
+			}
+			continue
+		}
+		want[n.Rel] = n
+	}
+	return
+}
+
 func treeStats(tree []nodeSpec) (count int, total int64, maxFile int64, depth int64) {
 	for _, n := range tree {
 		count++
@@ -279,7 +330,7 @@ func coqLim(l *limSpec) string {
 	if l == nil {
 		return "None"
 	}
-	return fmt.Sprintf("(Some (mkLim %s %s %s %s))", h.Z(l.MaxFile), h.Z(l.MaxTotal), h.Z(l.MaxCount), h.Z(l.MaxDepth))
+	return fmt.Sprintf("(Some (mkLim %s %s %s %s %s))", h.Z(l.MaxFile), h.Z(l.MaxTotal), h.Z(l.MaxCount), h.Z(l.MaxDepth), h.Bool(l.Recursive))
 }
 
 func coqRes(k string) string {
@@ -397,7 +448,7 @@ func runRound(r *h.Run, sc scenario, emit bool) {
 	count, total, maxFile, depth := treeStats(sc.Tree)
 	if lim != nil && lim.Recursive {
 		for _, n := range sc.Tree {
-			if !n.Dir && bytes.HasPrefix(n.content(), []byte("PK\x03\x04")) {
+			if !n.Dir && n.Nested == nil && hasArchiveExt(n.Rel) && bytes.HasPrefix(n.content(), []byte("PK\x03\x04")) {
 				// recursive extraction expands (or rejects) what looks like a nested archive: by design, not a round trip
 				r.Count("skipped:recursive-limits-with-zip-looking-content")
 				return
@@ -432,10 +483,7 @@ func runRound(r *h.Run, sc scenario, emit bool) {
 		if err != nil {
 			r.Fail("roundtrip-unzip-error:"+kind, "Unzip of an archive produced by Zip failed: "+err.Error(), sc)
 		} else {
-			want := map[string]nodeSpec{}
-			for _, n := range sc.Tree {
-				want[n.Rel] = n
-			}
+			want, unlisted := expectedAfter(sc.Tree, lim != nil && lim.Recursive)
 			for rel, n := range want {
 				g, ok := got[rel]
 				switch {
@@ -446,7 +494,7 @@ func runRound(r *h.Run, sc scenario, emit bool) {
 				case !n.Dir && !bytes.Equal(g.Data, n.content()):
 					r.Fail("roundtrip-content", fmt.Sprintf("content of %q differs: %s -> %s", rel, short(n.content()), short(g.Data)), sc)
 				}
-				if ok && g.Dir == n.Dir && g.MTime.Unix() != time.Unix(0, n.MTime).Unix() {
+				if ok && g.Dir == n.Dir && !unlisted[rel] && g.MTime.Unix() != time.Unix(0, n.MTime).Unix() {
 					what := "file"
 					if n.Dir {
 						what = "dir"
@@ -468,8 +516,12 @@ func runRound(r *h.Run, sc scenario, emit bool) {
 				seen[filepath.ToSlash(rel)]++
 			}
 			for rel := range want {
+				if unlisted[rel] {
+					delete(seen, rel) // destination directory of a nested archive: may or may not be named
+					continue
+				}
 				if seen[rel] != 1 {
-					r.Fail("roundtrip-list", fmt.Sprintf("returned list names %q %d times (expected exactly once)", rel, seen[rel]), sc)
+					r.Fail("roundtrip-list", fmt.Sprintf("returned list names %q %d times (expected exactly once: it was created)", rel, seen[rel]), sc)
 				}
 			}
 			for rel := range seen {
@@ -483,7 +535,13 @@ func runRound(r *h.Run, sc scenario, emit bool) {
 		r.Count("round:limit-too-small-accepted")
 	}
 	// ---- correspondence
-	if emit && !sc.Prepopulate && (lim == nil || !lim.Recursive) {
+	hasNested := false
+	for _, n := range sc.Tree {
+		if n.Nested != nil {
+			hasNested = true
+		}
+	}
+	if emit && !sc.Prepopulate && !(hasNested && lim != nil && lim.Recursive) {
 		names, sizes, secs, lerr := readZipListing(w, archive)
 		if lerr != nil {
 			r.Fail("roundtrip-archive-unreadable", "archive/zip cannot list the produced archive: "+lerr.Error(), sc)
@@ -1282,13 +1340,73 @@ func runClosed(r *h.Run, sc scenario, emit bool) {
 		r.Fail("view-missing:"+sc.Archive, fmt.Sprintf("cannot open %q / %q on the open view: %v %v", dir, file, err1, err2), sc)
 		return
 	}
-	if err := v.Close(); err != nil {
-		r.Fail("closed-close-error:"+sc.Archive, "Close() of the archive file system failed: "+err.Error(), sc)
+	// closing orders: the constructor's documentation asks the caller to close the returned archive File as well
+	var closeErr error
+	underlyingFails := false
+	switch sc.CloseOrder {
+	case "file-fs":
+		if f != nil {
+			_ = f.Close()
+			underlyingFails = f.Close() != nil // does this back end refuse to close the archive file twice?
+		}
+		closeErr = v.Close()
+	case "fs-file":
+		closeErr = v.Close()
+		if f != nil {
+			_ = f.Close()
+		}
+	case "fs-fs":
+		closeErr = v.Close()
+		if err := v.Close(); err != nil {
+			r.Fail("closed-close-error:"+sc.Archive, "second Close() failed: "+err.Error(), sc)
+		}
+	default:
+		closeErr = v.Close()
+	}
+	_, serr := v.Stat(file)
+	servesNothing := commonerrors.Any(serr, commonerrors.ErrCondition)
+	r.Count(fmt.Sprintf("closed:order=%s:close-nil=%v:serves-nothing=%v", sc.CloseOrder, closeErr == nil, servesNothing))
+	if emit || sc.CloseOrder != "" {
+		r.Case(fmt.Sprintf("(CClose %s %s %s)", h.Bool(underlyingFails), h.Bool(closeErr == nil), h.Bool(servesNothing)),
+			map[string]any{"scenario": sc, "underlying_fails": underlyingFails, "close_nil": closeErr == nil, "serves_nothing": servesNothing})
+	}
+	if closeErr != nil {
+		if !underlyingFails {
+			r.Fail("closed-close-error:"+sc.Archive, "Close() of the archive file system failed: "+closeErr.Error(), sc)
+			return
+		}
+		// Close() did not report success (the archive file had already been closed by the caller): the file system may
+		// legitimately still be open; what it does then is recorded, not judged
+		r.Note(fmt.Sprintf("order %s on %s/%s: Close() returns %s and the file system stays open (Stat -> %s)", sc.CloseOrder, sc.Backend, sc.Archive, errKind(closeErr), errKind(serr)))
 		return
 	}
-	closedSweep(r, sc, v, file, dir, dh, fh, emit, "NewZipFileSystem/NewTarFileSystem")
+	// Close() returned nil: from here on nothing may be served
+	if !servesNothing {
+		// still open although Close() reported success: report it and do not sweep (calling every method on an OPEN
+		// archive file system would, among others, run into the unrecoverable djherbis/times panic of StatTimes)
+		r.Fail("closed-serves:Stat", fmt.Sprintf("Close() returned nil (closing order %q, %s back end) but Stat on the %s file system still answers %s instead of failing with 'failed condition': the closed flag is not set",
+			sc.CloseOrder, sc.Backend, sc.Archive, errKind(serr)), sc)
+		for _, probe := range []string{"Exists", "Ls", "ReadFile"} {
+			switch probe {
+			case "Exists":
+				if v.Exists(file) {
+					r.Fail("closed-serves:Exists", "Exists still answers true after a Close() that returned nil", sc)
+				}
+			case "Ls":
+				if _, e := v.Ls(dir); !commonerrors.Any(e, commonerrors.ErrCondition) {
+					r.Fail("closed-serves:Ls", "Ls still answers ("+errKind(e)+") after a Close() that returned nil", sc)
+				}
+			case "ReadFile":
+				if _, e := v.ReadFile(file); !commonerrors.Any(e, commonerrors.ErrCondition) {
+					r.Fail("closed-serves:ReadFile", "ReadFile answers "+errKind(e)+" instead of 'failed condition' after a Close() that returned nil", sc)
+				}
+			}
+		}
+		return
+	}
+	closedSweep(r, sc, v, file, dir, dh, fh, emit, "NewZipFileSystem/NewTarFileSystem order="+sc.CloseOrder)
 	if err := v.Close(); err != nil {
-		r.Fail("closed-close-error:"+sc.Archive, "second Close() failed: "+err.Error(), sc)
+		r.Fail("closed-close-error:"+sc.Archive, "Close() after a successful Close() failed: "+err.Error(), sc)
 	}
 	if f != nil {
 		_ = f.Close()
@@ -1354,7 +1472,11 @@ func genName(rg *rand.Rand) string {
 	case 5, 6:
 		return nameAtoms[rg.Intn(len(nameAtoms))] + nameAtoms[rg.Intn(len(nameAtoms))]
 	case 7:
-		return nameAtoms[rg.Intn(len(nameAtoms))] + ".zip" // a zip-like NAME with ordinary content
+		e := filesystem.ZipFileExtensions[rg.Intn(len(filesystem.ZipFileExtensions))] // an archive-like NAME (files and directories)
+		if rg.Intn(4) == 0 {
+			e = strings.ToUpper(e)
+		}
+		return nameAtoms[rg.Intn(len(nameAtoms))] + e
 	case 8:
 		n := 1 + rg.Intn(12)
 		alphabet := []rune("abcXYZ019 ._-é日$&;")
@@ -1444,6 +1566,13 @@ func genTree(rg *rand.Rand, maxEntries, maxDepth int, allowLarge bool, small boo
 				}
 				nd.Data = b
 			}
+		} else if hasArchiveExt(name) && rg.Intn(2) == 0 {
+			stem := rel[:len(rel)-len(filepath.Ext(name))]
+			if used[stem] {
+				continue
+			}
+			used[stem] = true // the directory a recursive extraction expands it into
+			nd.Nested = []nodeSpec{d("in", genMTime(rg)), t("in/a..b", "nested", genMTime(rg)), t("top.gz", "not an archive", genMTime(rg)), d("e.zip", genMTime(rg))}
 		} else {
 			genContent(rg, &nd, allowLarge)
 		}
@@ -1459,6 +1588,24 @@ func t(rel string, data string, mt int64) nodeSpec {
 func d(rel string, mt int64) nodeSpec { return nodeSpec{Rel: rel, Dir: true, MTime: mt} }
 
 const t0 = int64(981173106789000000) // 2001-02-03T04:05:06.789Z
+
+// extTrees: every archive extension isZip knows, on files (ordinary content), on directories (empty and not), in upper
+// case; the second tree adds real nested archives under such names.
+func extTrees() (fake []nodeSpec, nested []nodeSpec) {
+	for i, e := range filesystem.ZipFileExtensions {
+		mt := t0 + int64(i)*1e9
+		fake = append(fake, t("f"+e, "ordinary content "+e, mt), d("d"+e, mt+3e9), t("d"+e+"/inside"+e, "x", mt+5e9), d("empty"+strings.ToUpper(e), mt+7e9))
+	}
+	fake = append(fake, t("gzipmagic.gz", "\x1f\x8b\x08\x00not really", t0), d("release-1.0.gz", t0+2e9), d("release-1.0.gz/backup.zip", t0+4e9), t("release-1.0.gz/backup.zip/y.pack", "p", t0+6e9))
+	nested = append(nested, fake...)
+	for i, e := range []string{".zip", ".jar", ".gz", ".pack", ".ZIP", ".tar.gz"} {
+		mt := t0 + int64(i)*2e9
+		nested = append(nested, nodeSpec{Rel: fmt.Sprintf("n%d%s", i, e), MTime: mt, Nested: []nodeSpec{
+			d("sub", mt+1e9), t("sub/a..b", "deep", mt+2e9), t("plain", "p", mt+3e9), d("dir.gz", mt+4e9), t("fake.zip", "ordinary", mt+5e9)}})
+	}
+	nested = append(nested, nodeSpec{Rel: "real-zip-without-extension", MTime: t0, Nested: []nodeSpec{t("x", "x", t0)}})
+	return
+}
 
 func corpusTrees() map[string][]nodeSpec {
 	deep := []nodeSpec{}
@@ -1600,6 +1747,12 @@ func main() {
 		}
 		runScenario(r, scenario{Kind: "round", Backend: be, Tree: corpus["basic"], Limits: &limSpec{MaxFile: 1 << 30, MaxTotal: 1 << 32, MaxCount: 1 << 20, MaxDepth: -1, Recursive: true}}, false)
 		runScenario(r, scenario{Kind: "round", Backend: be, Tree: corpus["names"], Limits: &limSpec{MaxFile: 1 << 30, MaxTotal: 1 << 32, MaxCount: 1 << 20, MaxDepth: -1, Recursive: true}}, false)
+		fakeExt, nestedExt := extTrees()
+		recLim := &limSpec{MaxFile: 1 << 30, MaxTotal: 1 << 32, MaxCount: 1 << 20, MaxDepth: -1, Recursive: true}
+		runScenario(r, scenario{Kind: "round", Backend: be, Tree: fakeExt, Limits: recLim}, true)
+		runScenario(r, scenario{Kind: "round", Backend: be, Tree: nestedExt, Limits: recLim}, false)
+		runScenario(r, scenario{Kind: "round", Backend: be, Tree: nestedExt}, false)
+		runScenario(r, scenario{Kind: "round", Backend: be, Tree: nestedExt, Limits: &limSpec{MaxFile: 1 << 30, MaxTotal: 1 << 32, MaxCount: 1 << 20, MaxDepth: 10}}, false)
 		runScenario(r, scenario{Kind: "round", Backend: be, Tree: corpus["basic"], Prepopulate: true}, false)
 		runScenario(r, scenario{Kind: "round", Backend: be, Tree: corpus["dots"], ZipLimits: true, Limits: &limSpec{MaxFile: 1 << 30, MaxTotal: 1 << 32, MaxCount: 1 << 20, MaxDepth: 10}}, true)
 	}
@@ -1612,6 +1765,11 @@ func main() {
 		runScenario(r, scenario{Kind: "readonly", Backend: "mem", Archive: ar, Tree: corpus["dots"]}, false)
 		runScenario(r, scenario{Kind: "closed", Backend: "os", Archive: ar, Tree: corpus["basic"]}, true)
 		runScenario(r, scenario{Kind: "closed", Backend: "mem", Archive: ar, Tree: corpus["basic"], Limits: &limSpec{MaxFile: 1 << 30, MaxTotal: 1 << 32, MaxCount: 1 << 20, MaxDepth: -1}}, false)
+		for _, be := range []string{"os", "mem"} {
+			for _, order := range []string{"file-fs", "fs-file", "fs-fs"} {
+				runScenario(r, scenario{Kind: "closed", Backend: be, Archive: ar, Tree: corpus["basic"], CloseOrder: order}, false)
+			}
+		}
 	}
 	for i, es := range rawCorpus {
 		runScenario(r, scenario{Kind: "raw", Backend: []string{"os", "mem"}[i%2], Raw: es}, true)
@@ -1661,9 +1819,7 @@ func main() {
 		case 2:
 			sc.Limits = &limSpec{MaxFile: 1 << 30, MaxTotal: 1 << 34, MaxCount: 1 << 20, MaxDepth: 10}
 		case 3:
-			if !emit {
-				sc.Limits = &limSpec{MaxFile: 1 << 30, MaxTotal: 1 << 34, MaxCount: 1 << 20, MaxDepth: -1, Recursive: true}
-			}
+			sc.Limits = &limSpec{MaxFile: 1 << 30, MaxTotal: 1 << 34, MaxCount: 1 << 20, MaxDepth: -1, Recursive: true}
 		}
 		if emit && emitted >= r.N(110, 400) {
 			emit = false
@@ -1689,7 +1845,7 @@ func main() {
 			runScenario(r, scenario{Kind: "readonly", Backend: be, Archive: ar, Tree: tree}, false)
 		}
 		if i%10 == 0 {
-			runScenario(r, scenario{Kind: "closed", Backend: be, Archive: ar, Tree: tree}, false)
+			runScenario(r, scenario{Kind: "closed", Backend: be, Archive: ar, Tree: tree, CloseOrder: []string{"", "file-fs", "fs-file", "fs-fs"}[rg.Intn(4)]}, false)
 		}
 	}
 	nRaw := r.N(40, 600)
